@@ -378,6 +378,9 @@ class AnsiString:
             # Ignore - nothing to apply
             return
 
+        # Settings (in order of precedence) at the end index before anything is changed
+        settings_at_end = self.ansi_settings_at(end)
+
         if start not in self._fmts:
             self._fmts[start] = _AnsiSettingPoint()
 
@@ -415,8 +418,22 @@ class AnsiString:
                         del settings_point.rem[i]
 
                 if idx == end:
-                    if end != len(self._s):
-                        settings_point.add += removed_settings
+                    if end != len(self._s) and removed_settings:
+                        # Settings which continue past the range are restarted here. They must regain the precedence
+                        # they had, so everything that was above the lowest of them is restarted in the original order.
+                        restart_from = min(
+                            i for i, s in enumerate(settings_at_end)
+                            if __class__._find_setting_reference(s, removed_settings) >= 0
+                        )
+                        restart_settings = [
+                            s for s in settings_at_end[restart_from:]
+                            if __class__._find_setting_reference(s, settings_point.add) < 0
+                        ]
+                        settings_point.rem += [
+                            s for s in restart_settings
+                            if __class__._find_setting_reference(s, removed_settings) < 0
+                        ]
+                        settings_point.add[0:0] = restart_settings
                 else:
                     for i in reversed(range(len(settings_point.add))):
                         if ansi_settings is None or settings_point.add[i] in ansi_settings:
